@@ -366,6 +366,9 @@ def main():
     for l in ls:
         jobs.append((job_series, {'l': l}))
     jobs.append((job_driver, {}))
+    # the starting conditions call cf_csqrt (through cf_z_calc) where this check uses the mathematical square root: the kernel itself must be the principal root (C20's obligation, shared)
+    import c20
+    jobs.append((c20.job_real, {}))
     meta = {
         'explanation': 'Every starting-condition function (Kamata, Takeuchi-Saito, Saito) is transliterated from the current .pyx and executed for a homogeneous sphere (g = 4 pi G rho r / 3) on symbols in '
                        'formal-indeterminate mode. z = x j_{l+1}/j_l and phi_l, phi_{l+1} are atoms carrying their derivation rules (Riccati form of the Bessel recurrences); the complex square root of the '
